@@ -23,7 +23,7 @@ class PathEnd(Exception):
 
 
 class State:
-    __slots__ = ("frames", "nfid", "term_ranges", "noovf", "cons", "visits", "steps", "havocked", "trace")
+    __slots__ = ("frames", "nfid", "term_ranges", "noovf", "cons", "visits", "steps", "havocked", "trace", "rels")
 
     def __init__(self):
         self.frames = {}
@@ -35,6 +35,7 @@ class State:
         self.steps = 0
         self.havocked = frozenset()
         self.trace = ()
+        self.rels = frozenset()  # relational facts ('le', term_a, term_b): a <= b
 
     def fork(self):
         s = State()
@@ -47,6 +48,7 @@ class State:
         s.steps = self.steps
         s.havocked = self.havocked
         s.trace = self.trace
+        s.rels = self.rels
         return s
 
     def new_frame(self):
@@ -369,6 +371,29 @@ class Interp:
             return None
         return t
 
+    def cmp(self, op, a, b, st):
+        """comparison using intervals, bit forms and relational facts a <= b"""
+        r = int_cmp(op, a, b)
+        if int_const(r) is not None:
+            return r
+        ta, tb = a[6], b[6]
+        if ta is not None and ta == tb:
+            return const(1 if op in ("Eq", "Le", "Ge") else 0, 1)
+        if not st.rels:
+            return r
+        if ta is not None and tb is not None:
+            if ("le", ta, tb) in st.rels:
+                if op == "Le":
+                    return const(1, 1)
+                if op == "Gt":
+                    return const(0, 1)
+            if ("le", tb, ta) in st.rels:
+                if op == "Ge":
+                    return const(1, 1)
+                if op == "Lt":
+                    return const(0, 1)
+        return r
+
     def term_lo(self, t, st):
         if t[0] == "k":
             return t[1]
@@ -502,7 +527,7 @@ class Interp:
                 return agg("tuple", None, None, [TOP, top_int(1)])
             return TOP
         if base in ("Eq", "Ne", "Lt", "Le", "Gt", "Ge"):
-            r = int_cmp(base, a, b)
+            r = self.cmp(base, a, b, st)
             if int_const(r) is None:
                 r = with_term(r, ("cmp", base, a, b))
             return r
@@ -618,6 +643,8 @@ class Interp:
             return arr([self.havoc_value(x, depth + 1) for x in v[1]])
         if is_ptr(v):
             return v
+        if isinstance(v, tuple) and v and v[0] == "iter":
+            return v  # summarised iterators carry only static facts
         return TOP
 
     def havoc_loop(self, fn, fid, h, st):
